@@ -4,7 +4,7 @@
    hand models that are run against the real code on every run. *)
 From Coq Require Import ZArith List Bool.
 From MomoCommon Require Import GenPrelude.
-From C09 Require Gen_UIntMath Gen_MemPoolConst Gen_MemPool Gen_MemPoolData PoolLayout PoolLinks PoolArith PoolLinksProofs PoolModel PoolConc PoolConcProofs PoolInv PoolAddr PoolCompl PoolOne PoolU32Prims Gen_MemPoolUInt32 PoolU32 PoolU32List PoolBlkPrims Gen_MemPoolBlk Gen_MemPoolMerge PoolBlk PoolMergeGen PoolBlkRefine PoolBlkSim Gen_MemPoolDel PoolDelGen Gen_MemPoolNewBuf PoolNewBufGen.
+From C09 Require Gen_UIntMath Gen_MemPoolConst Gen_MemPool Gen_MemPoolData PoolLayout PoolLinks PoolArith PoolLinksProofs PoolModel PoolConc PoolConcProofs PoolInv PoolAddr PoolCompl PoolOne PoolU32Prims Gen_MemPoolUInt32 PoolU32 PoolU32List PoolBlkPrims Gen_MemPoolBlk Gen_MemPoolMerge PoolBlk PoolMergeGen PoolBlkRefine PoolBlkSim PoolDelSim Gen_MemPoolDel PoolDelGen Gen_MemPoolNewBuf PoolNewBufGen.
 Import ListNotations.
 Local Open Scope Z_scope.
 
@@ -695,6 +695,35 @@ Theorem C09_newblock_simulation_initial : forall C B A adr, adr 0 = 0 -> forall 
   PoolBlkSim.Sim C B A adr PoolConc.empty_world p 0 bf bcnt nx nfi.
 Proof. exact PoolBlkSim.sim_init. Qed.
 Print Assumptions C09_newblock_simulation_initial.
+
+(* Sim extended to Deallocate through the GENERATED pvDeleteBlock3 - PARTIAL: deallocations after which the buffer's free count is
+   neither 1 nor blockCount (no pvMoveBufferToHead, no pvDeleteBuffer); block addresses of different (buffer, index) pairs distinct.
+   One generated step = one PoolConc.pvDeleteBlock step and Sim holds again *)
+Theorem C09_deleteblock_simulation_step_partial : forall C B A adr, (forall a b, adr a = adr b -> a = b) ->
+  (forall b j b' j', Gen_MemPool.pvGetBlock B A (adr b) j = Gen_MemPool.pvGetBlock B A (adr b') j' -> b = b' /\ j = j') ->
+  forall w p hd bf bcnt nx pv nfi b j, PoolBlkSim.Sim C B A adr w p hd bf bcnt nx nfi ->
+  0 < b < PoolConc.fresh w ->
+  let c1 := PoolConc.fc w b + 1 in
+  0 <= c1 < 2 ^ 63 -> c1 <> 1 -> c1 <> C ->
+  exists bf' bcnt' nfi',
+    Gen_MemPoolDel.pvDeleteBlock3 C B A hd 0 bf bcnt nx pv nfi (Gen_MemPool.pvGetBlock B A (adr b) j) (adr b) j =
+      Ok (tt, hd, 0, bf', bcnt', nx, pv, nfi') /\
+    PoolBlkSim.Sim C B A adr (PoolConc.pvDeleteBlock C w p (b, j)) p hd bf' bcnt' nx nfi'.
+Proof. exact PoolDelSim.sim_del_push_only_partial. Qed.
+Print Assumptions C09_deleteblock_simulation_step_partial.
+
+(* Allocate / Deallocate scripts on one pool (cache off) whose deallocations are all of that kind (okrun, evaluated on the model run):
+   the iterated GENERATED pvNewBlock / pvDeleteBlock3 complete normally, hand out exactly the model's blocks, and Sim holds at the end *)
+Theorem C09_alloc_dealloc_simulation_partial : forall C B A adr, (forall a b, adr a = adr b -> a = b) ->
+  (forall b j b' j', Gen_MemPool.pvGetBlock B A (adr b) j = Gen_MemPool.pvGetBlock B A (adr b') j' -> b = b' /\ j = j') ->
+  2 <= C -> adr 0 = 0 ->
+  forall ops w p hd bf bcnt nx pv nfi, PoolBlkSim.Sim C B A adr w p hd bf bcnt nx nfi -> PoolDelSim.okrun C ops w p ->
+  exists hd' bf' bcnt' nx' pv' nfi',
+    PoolDelSim.grun2 C B A adr ops (PoolConc.fresh w) hd bf bcnt nx pv nfi =
+      Some (map (fun bk => Gen_MemPool.pvGetBlock B A (adr (fst bk)) (snd bk)) (fst (PoolDelSim.mrun2 C ops w p)), (hd', bf', bcnt', nx', pv', nfi')) /\
+    PoolBlkSim.Sim C B A adr (snd (PoolDelSim.mrun2 C ops w p)) p hd' bf' bcnt' nx' nfi'.
+Proof. exact PoolDelSim.sim_run_alloc_dealloc_partial. Qed.
+Print Assumptions C09_alloc_dealloc_simulation_partial.
 
 (* the hypotheses Rel / PreInit of the refinement theorem are satisfiable (initial world, cells of buffer 1 pre-initialised) *)
 Theorem C09_newblock_refinement_hypotheses_satisfiable : forall C B A,
